@@ -75,6 +75,12 @@ def showRes : Res → String
   | .err e => s!"e{e.name}"
   | .unspecified => "?"
 
+/-- `d_key` -/
+def parseDictKey (s : String) : Option (Nat × Key) :=
+  match s.splitOn "_" with
+  | [d, k] => do pure (← d.toNat?, ← parseKey k)
+  | _ => none
+
 def parseInstr (s : String) : Option Instr :=
   let rest := (s.drop 1).toString
   match s.front with
@@ -83,7 +89,34 @@ def parseInstr (s : String) : Option Instr :=
   | 'X' => rest.toNat?.map Instr.resolve
   | 'C' => if rest.isEmpty then some .cacheLookup else none
   | 'D' => if rest.isEmpty then some .deleteAllTemp else none
+  | 'G' => rest.toNat?.map Instr.lookupTemp
+  | 'g' => rest.toNat?.map Instr.tryLookupTemp
+  | 'T' => if rest.isEmpty then some .cacheTest else none
+  | 'U' => if rest.isEmpty then some .cacheUse else none
+  | 'N' => if rest.isEmpty then some .cacheInit else none
+  | 'I' => rest.toNat?.map Instr.innerIter
+  | 'S' => (parseDictKey rest).map fun (d, k) => Instr.innerSet d k
+  | 'Q' => (parseDictKey rest).map fun (d, k) => Instr.innerGet d k
   | _ => none
+
+def showInstr : Instr → String
+  | .contextHash => "H"
+  | .registerTemp k => s!"R{k}"
+  | .resolve k => s!"X{k}"
+  | .cacheLookup => "C"
+  | .deleteAllTemp => "D"
+  | .lookupTemp k => s!"G{k}"
+  | .tryLookupTemp k => s!"g{k}"
+  | .cacheTest => "T"
+  | .cacheUse => "U"
+  | .cacheInit => "N"
+  | .innerIter d => s!"I{d}"
+  | .innerSet d k => s!"S{d}_{showKey k}"
+  | .innerGet d k => s!"Q{d}_{showKey k}"
+
+/-- initial inner dicts: `-` or `+`-separated key lists separated by `;`-free `,` : `p0+p1,p0` -/
+def parseInner (s : String) : Option (List (List Key)) :=
+  (splitList s ",").mapM fun tok => (splitList tok "+").mapM parseKey
 
 def parseProg (s : String) : Option (List Instr) := (splitList s ".").mapM parseInstr
 
@@ -122,23 +155,26 @@ def handleC15 : List String → Option String
       | [n, acts] =>
         let n ← n.toNat?
         let acts ← (splitList acts ",").mapM parseAct
-        let s0 : Shared := ⟨baseRegistry n, c, 0⟩
+        let s0 : Shared := { reg := baseRegistry n, cacheSet := c, inserts := 0 }
         let res := replay s0 [] acts
         let fin := finalShared s0 [] acts
         let rs := if res.isEmpty then "-" else ",".intercalate (res.map showRes)
         pure s!"{rs} reg={showKeys (regKeys fin.reg)} cache={if fin.cacheSet then 1 else 0}"
       | _ => none
     pure ("ok " ++ " | ".intercalate outs)
-  | ["c15.sched", nPlugins, cacheSet, progs, schedule] => do
-    let n ← nPlugins.toNat?; let c ← parseBool cacheSet
+  | ["c15.sched", nPlugins, cacheSet, inner, progs, schedule] => do
+    let n ← nPlugins.toNat?; let c ← parseBool cacheSet; let inner ← parseInner inner
     let progs ← (progs.splitOn "/").mapM parseProg
     let sch ← parseNats schedule
-    pure s!"ok {showSys ((Sys.init n c progs).run sch)}"
-  | ["c15.blocks", nPlugins, cacheSet, progs, schedule] => do
-    let n ← nPlugins.toNat?; let c ← parseBool cacheSet
+    pure s!"ok {showSys ((Sys.initWith n c inner progs).run sch)}"
+  | ["c15.blocks", nPlugins, cacheSet, inner, progs, schedule] => do
+    let n ← nPlugins.toNat?; let c ← parseBool cacheSet; let inner ← parseInner inner
     let progs ← (progs.splitOn "/").mapM parseProg
     let sch ← parseNats schedule
-    pure s!"ok {showSys ((Sys.init n c progs).runBlocks sch)}"
+    pure s!"ok {showSys ((Sys.initWith n c inner progs).runBlocks sch)}"
+  | ["c15.workerprog", k] => do
+    let k ← k.toNat?
+    pure s!"ok {".".intercalate ((workerProg k).map showInstr)} {".".intercalate ((lockedProg k).map showInstr)}"
   | _ => none
 
 end Strax.Driver
